@@ -9,6 +9,23 @@ NOTE = ("Trusted: Coq 8.16.1 kernel (vm_compute; no native_compute); no axioms (
         "for the failing-input search only. ")
 
 CLAIMED = {
+ "C16": ("PARTIAL. Proved per propagator (ltefd, plusfd, minusfd, timesfd, diseqfd): with all operands ground the constraint is decided "
+         "exactly by the integer relation, and the repaired propagators re-run instead of storing themselves when their own pruning bound an "
+         "operand. The global statement (every answer of every program satisfies every posted constraint) is decided by brute-force "
+         "enumeration of the domain product on generated programs, with the answer multiset also compared with the model.",
+         "6/C16", "Coq proof of exact ground decisions per propagator + brute-force domain-product oracle + differential correspondence",
+         "The quiescence invariant over whole executions is not mechanised."),
+ "C17": ("PARTIAL. Proved: every propagator's pruning interval contains the value the operand takes in any solution within the current "
+         "domains (all signs; saturating arithmetic under the within-isize guard; corner-product hull for timesfd; quotient narrowing only for "
+         "non-negative domains), intersecting keeps it, and labeling enumerates each domain value once. Completeness and uniqueness over "
+         "whole programs are decided against brute force (query variables, lists, compounds, hidden variables).",
+         "6/C17", "Coq proof that pruning keeps every solution (interval arithmetic over Z) + brute-force projection oracle + differential correspondence",
+         "The lift through the recursive constraint re-run and labeling machinery is not mechanised."),
+ "C19": ("Theorems by case analysis on groundness, for all states and operands: all ground = decided exactly; two ground = the third bound to "
+         "the unique solution (division exact and divisor non-zero), failure when none exists, constraint kept when every integer works; fewer "
+         "ground = kept (including all three unbound); never a panic outcome.",
+         "6/C19", "Coq proof: exhaustive groundness case analysis of plusz/timesz + arithmetic of the unique solution + all-patterns differential run",
+         "Order-freedom relies on run_constraints after every unification (C22's invariant); checked for all posting orders."),
  "C01": ("Theorems for all terms (literals, variables, proper/improper lists, compounds), all prior substitutions and all fuel: on success "
          "the solutions of the answer are exactly the unifiers consistent with the prior bindings (soundness, most general), the answer "
          "extends the prior substitution by the reported extension; on failure no consistent unifier exists (clashes, arity, occurs check by a "
